@@ -278,6 +278,8 @@ def check_class(run, repo, eff, fr, ci, fams, encs):
             pass
         else:
             bad('C02-F', k, 'effect outside the frame of a %s: `%s`' % (fam.describe(), e.text()[:120]))
+    # ---- N: the call site of the ThumbEE null check ----
+    check_null_check_call(bad, 'C02-N', tr, encs, const(15) if fam.form == 'Literal' else ('field', 'n'), fam.describe())
     # ---- O ----
     writes = tr.of('RegWrite')
     for w in writes:
@@ -465,8 +467,10 @@ def check_class(run, repo, eff, fr, ci, fams, encs):
                     bad('C02-PC', 'load_write_pc operand', 'load_write_pc receives `%s`, not the word loaded from the access address' % fmt(v)[:140])
                 if not guard_has(e.guards, is_t15, True):
                     bad('C02-PC', 'load_write_pc guard', 'load_write_pc is not on the t == 15 side')
-                if not any(pol and aligned_word_test(N(g, asg), addr_ok) for g, pol, _ in e.guards):
-                    bad('C02-PC', 'alignment test', 'load_write_pc is not guarded by address<1:0> == 00')
+                if not any(pol and aligned_word_test(N(g, asg), addr_ok) for g, pol, _ in e.guards) or any(
+                        legacy_guard(e.guards, us, False, arm, addr_ok, 4, asg) for us in (False, True) for arm in arm_values):
+                    bad('C02-PC', 'alignment test', 'load_write_pc must be reachable only when address<1:0> == 00 '
+                        '(it is reachable for an unaligned address, or no test of the low address bits guards it)')
     run.instance('C02-T', ci.name, obligations=9 * nasg, ok=ok[0],
                  sample={'class': ci.name, 'family': fam.describe(), 'assignments': nasg, 'encodings': sorted(encs)})
 
@@ -551,14 +555,10 @@ def check_legacy_arms(bad, fam, evs, mems, addr_ok, addr_slot, asg, tag, arm_val
                     bad('C02-K', 'legacy unaligned arm [%s]' % tag,
                         'with %s the architecture performs the real transfer (%s), but the tree only has the UNKNOWN / rotated arm there'
                         % (where, 'UnalignedSupport() || aligned' + (' || CurrentInstrSet() == ARM' if arm_clause else '')))
-                if fam.load and fam.size == 4 and not must and arm and live_real and any(
-                        v[0] == 'call' and v[1] == 'ror' for v, g in leaves):
+                if fam.load and fam.size == 4 and not must and arm and (live_real or not live_ror):
                     bad('C02-K', 'legacy rotated load [%s]' % tag,
-                        'with %s the loaded word is rotated right by 8*address<1:0>; the tree also writes the unrotated word there' % where)
-                if fam.load and fam.size == 4 and not must and arm and not live_ror and any(
-                        v[0] == 'call' and v[1] == 'ror' for v, g in leaves) and not live_real:
-                    bad('C02-K', 'legacy rotated load [%s]' % tag,
-                        'with %s the loaded word is rotated right by 8*address<1:0>; the tree has no rotated arm there' % where)
+                        'with %s the loaded word is rotated right by 8*address<1:0> (ARM state, before ARMv7); the tree %s there'
+                        % (where, 'also writes the unrotated word' if live_real else 'has no rotated arm'))
 
 
 def aligned_word_test(g, addr_ok):
@@ -679,6 +679,125 @@ def writeback_before_access(tr, base_idxs):
                     yield e, w
 
 
+def check_null_check_call(bad, rule, tr, encs, want_arg, what):
+    """Every class with a Thumb encoding performs NullCheckIfThumbEE(<base>) once, under condition_passed() only, before its
+    first memory access (ARM-only classes may omit it: the check is a no-op outside ThumbEE state)."""
+    calls = [e for e in tr.events if e.kind == 'ProcCall' and e.d['recv'] == '' and e.d['method'] == 'null_check_if_thumbee']
+    thumb = any(re.search(r'T\d$', en) for en in encs)
+    if not calls:
+        if thumb:
+            bad(rule, 'missing NullCheckIfThumbEE', 'a %s with a Thumb encoding must perform NullCheckIfThumbEE(%s) before the access '
+                '(in ThumbEE state a zero base register branches to the null-check handler)' % (what, fmt(want_arg)))
+        return
+    first_mem = min([e.idx for e in tr.events if e.kind in ('MemRead', 'MemWrite')] or [1 << 30])
+    for e in calls:
+        a = e.d['args']
+        if len(a) != 1 or a[0] != want_arg:
+            bad(rule, 'NullCheckIfThumbEE operand', 'NullCheckIfThumbEE(%s) checks the wrong register: the base of this %s is %s'
+                % (', '.join(fmt(x) for x in a), what, fmt(want_arg)))
+        if e.idx > first_mem:
+            bad(rule, 'NullCheckIfThumbEE after the access', 'the null check must precede the first memory access')
+        unpred = [u for u in tr.events if u.kind == 'Unpredictable']
+
+        def peel(g):
+            t, pol = g[0], g[1]
+            while t[0] == 'not':
+                t, pol = t[1], not pol
+            return t, pol
+        # a test whose other side is UNPREDICTABLE (`if CurrentModeIsHyp() then UNPREDICTABLE`) may precede the null check
+        extra = [g for g in e.guards if not is_condition_passed(peel(g)[0]) and g[0][0] != 'tryok' and
+                 not any(any(peel(h)[0] == peel(g)[0] and peel(h)[1] != peel(g)[1] for h in u.guards) for u in unpred)]
+        if extra:
+            bad(rule, 'conditional NullCheckIfThumbEE', 'the null check is skipped under `%s`' % fmt(extra[0][0])[:80])
+
+
+def check_null_check(run, repo, rule):
+    """NullCheckIfThumbEE(n) (called by every load/store with a base register): nothing happens outside ThumbEE state; in
+    ThumbEE state a zero base (n not 13 / 15) sets LR = PC<31:1>:'1', clears ITSTATE, branches to TEEHBR - 4 and ends the
+    instruction.  Decided on the effect trace of ArmV6.null_check_if_thumbee."""
+    from ..effects import _SelfWalker
+    fi = repo.method('ArmV6', 'null_check_if_thumbee')
+    tr = _SelfWalker(repo, 'ArmV6', []).walk(fi, repo.cls('ArmV6'))
+    params = [a.arg for a in fi.node.args.args if a.arg != 'self']
+    if len(params) != 1:
+        raise AnalysisError('null_check_if_thumbee: expected one parameter (the base register number)')
+    n = ('name', params[0])
+    def truth(t, te, n15, n13, z):
+        """Three-valued truth over the atoms: in ThumbEE state, n == 15, n == 13, R[n] == 0."""
+        if not isinstance(t, tuple) or not t:
+            return None
+        if t[0] == 'not':
+            r = truth(t[1], te, n15, n13, z)
+            return None if r is None else not r
+        if t[0] in ('and', 'or'):
+            rs = [truth(x, te, n15, n13, z) for x in t[1]]
+            if t[0] == 'and':
+                return False if False in rs else (True if all(r is True for r in rs) else None)
+            return True if True in rs else (False if all(r is False for r in rs) else None)
+        if t == ('reg', n):
+            return not z
+        if t[0] == 'cmp' and t[1] in ('Eq', 'NotEq'):
+            r = None
+            for a, b in ((t[2], t[3]), (t[3], t[2])):
+                if a == ('rcall', 'current_instr_set', ()) and b[0] == 'enum' and b[1] == 'InstrSet':
+                    r = te if b[2] == 'THUMB_EE' else (False if te else None)
+                elif a == n and b == const(15):
+                    r = n15
+                elif a == n and b == const(13):
+                    r = n13
+                elif a == ('reg', n) and b == const(0):
+                    r = z
+            if r is not None:
+                return r if t[1] == 'Eq' else not r
+        return None
+
+    def live(e, te, n15, n13, z):
+        for term, pol, _ in e.guards:
+            r = truth(term, te, n15, n13, z)
+            if r is not None and r != pol:
+                return False
+        return True
+    ok = True
+    effects = [e for e in tr.events if e.kind in ('RegWrite', 'FlagWrite', 'SysWrite', 'Branch', 'Raise', 'Unpredictable', 'Print',
+                                                  'RmodeWrite', 'CpsrWriteByInstr', 'SpsrWrite', 'BranchTo', 'SelectISet', 'ObjStore',
+                                                  'ProcStore', 'MemWrite', 'MemRead', 'TakeException', 'ItAdvance')]
+    vals = [(te, n15, n13, z) for te in (False, True) for n15 in (False, True) for n13 in (False, True) for z in (False, True)
+            if not (n15 and n13)]
+    for e in effects:
+        if any(live(e, False, n15, n13, z) for _, n15, n13, z in vals):
+            ok = False
+            run.violation(rule, fi.relpath, fi.qualname, 'effect outside ThumbEE state: ' + e.kind,
+                          'NullCheckIfThumbEE must do nothing unless CurrentInstrSet() == ThumbEE; `%s` is reachable in other states '
+                          '(a load/store with a zero base register would then branch to TEEHBR - 4)' % e.text()[:100])
+    hits = [e for e in effects if e.kind in ('RegWrite', 'FlagWrite', 'Branch', 'Raise')]
+    want = {'RegWrite': lambda e: e.d['idx'] == const(14) and e.d['value'] in (('op', 'BitOr', ('pc',), const(1)), ('op', 'BitOr', const(1), ('pc',)),
+                                                                              ('call', 'set_bit_at', (('pc',), const(0), const(1)))),
+            'FlagWrite': lambda e: e.d['flag'] == 'it' and e.d['value'] == const(0),
+            'Branch': lambda e: e.d['kind'] == 'branch' and e.d['target'][0] == 'call' and e.d['target'][1] == 'sub' and
+            len(e.d['target'][2]) == 3 and e.d['target'][2][1:] == (const(4), const(32)) and
+            e.d['target'][2][0] in (('sys', 'teehbr'), ('procattr', 'registers.teehbr')),
+            'Raise': lambda e: 'EndOfInstruction' in e.d['exc']}
+    seen = set()
+    for e in hits:
+        good = want[e.kind](e) and all(live(e, *v) == (v[0] and not v[1] and not v[2] and v[3]) for v in vals)
+        if not good:
+            ok = False
+            run.violation(rule, fi.relpath, fi.qualname, 'null-check effect ' + e.kind,
+                          'in ThumbEE state a zero base register (not SP, not PC) gives LR = PC | 1, ITSTATE = 0, BranchWritePC(TEEHBR - 4), '
+                          'EndOfInstruction - found `%s` under `%s`' % (e.text()[:80], ' & '.join(fmt(g[0])[:40] for g in e.guards[1:])))
+        else:
+            seen.add(e.kind)
+    if seen != set(want):
+        ok = False
+        run.violation(rule, fi.relpath, fi.qualname, 'null-check sequence',
+                      'missing step(s) of the ThumbEE null check: %s' % ', '.join(sorted(set(want) - seen)))
+    order = [e.kind for e in hits]
+    if ok and (order.index('Raise') < order.index('Branch') or order.index('Branch') < order.index('RegWrite')):
+        ok = False
+        run.violation(rule, fi.relpath, fi.qualname, 'null-check order', 'LR is set from the PC before the branch; EndOfInstruction comes last')
+    run.instance(rule, 'NullCheckIfThumbEE', obligations=len(effects) + 4, ok=ok, sample={'function': fi.qualname, 'effects': len(effects)})
+
+
 def check_abort_ordering(run, repo, rule):
     """The C02-O / C03-O ordering rule on all single and block load/store classes (shared with C14)."""
     from . import c03
@@ -716,6 +835,7 @@ def main(repo_path, tier, seed, replay=None):
     for name, (ci, fams, encs) in sorted(classes.items()):
         check_class(run, repo, eff, fr, ci, fams, encs)
     run.floor('single load/store opcode classes', len(classes), 49)
+    check_null_check(run, repo, 'C02-N')
     sub = Run('tmp')
     c10.check_widths(sub, repo, eff, fr, fa, rule='C02-W', select=None)
     names = set(classes)
